@@ -106,6 +106,8 @@ pub struct SCfg {
     pub creator: u8,
     /// 0 stream iter, 1 stream writer, 2 reader cursors + Merger
     pub mode: u8,
+    /// merge function: concatenation, or join with ',' (shows where empty values are)
+    pub join: bool,
 }
 
 impl SCfg {
@@ -118,19 +120,19 @@ impl SCfg {
     pub fn json(&self) -> Value {
         json!({"ev": "SCfg", "teff": self.teff(), "hook": self.hook.is_some(),
                "init": self.hook.map(|h| h.1).unwrap_or(131072), "realloc": self.realloc, "maxc": self.maxc,
-               "stable": self.stable, "threads": self.threads, "creator": self.creator, "mode": self.mode,
+               "stable": self.stable, "mf": if self.join { "join" } else { "concat" }, "threads": self.threads, "creator": self.creator, "mode": self.mode,
                "chunk": self.chunk.json()})
     }
 }
 
-/// Inserted value number `id` (1-based): self-delimiting token [len u16][id u32][pad..]; len 0 = empty.
+/// Inserted value number `id` (1-based): self-delimiting token [len u32][id u32][pad..]; len 0 = empty.
 pub fn stoken(id: u32, len: usize) -> Vec<u8> {
     if len == 0 {
         return Vec::new();
     }
-    let len = len.max(6).min(65535);
+    let len = len.max(8);
     let mut v = Vec::with_capacity(len);
-    v.extend_from_slice(&(len as u16).to_be_bytes());
+    v.extend_from_slice(&(len as u32).to_be_bytes());
     v.extend_from_slice(&id.to_be_bytes());
     let mut x = id;
     while v.len() < len {
@@ -144,12 +146,12 @@ pub fn stoken(id: u32, len: usize) -> Vec<u8> {
 pub fn parse_tokens(v: &[u8]) -> Vec<i64> {
     let mut out = Vec::new();
     let mut p = 0;
-    while p + 6 <= v.len() {
-        let len = u16::from_be_bytes([v[p], v[p + 1]]) as usize;
-        if len < 6 || p + len > v.len() {
+    while p + 8 <= v.len() {
+        let len = u32::from_be_bytes([v[p], v[p + 1], v[p + 2], v[p + 3]]) as usize;
+        if len < 8 || p + len > v.len() {
             break;
         }
-        let id = u32::from_be_bytes([v[p + 2], v[p + 3], v[p + 4], v[p + 5]]);
+        let id = u32::from_be_bytes([v[p + 4], v[p + 5], v[p + 6], v[p + 7]]);
         if stoken(id, len) != v[p..p + len] {
             out.push(-1);
         } else {
@@ -161,6 +163,38 @@ pub fn parse_tokens(v: &[u8]) -> Vec<i64> {
         out.push(-1);
     }
     out
+}
+
+/// ids of the values joined with ',' in `v`, 0 for an empty value; -1 if unparsable.
+pub fn parse_joined(v: &[u8]) -> Vec<i64> {
+    let mut out = Vec::new();
+    let mut p = 0;
+    loop {
+        // one (possibly empty) value
+        if p + 8 <= v.len() && v[p] != b',' {
+            let len = u32::from_be_bytes([v[p], v[p + 1], v[p + 2], v[p + 3]]) as usize;
+            if len < 8 || p + len > v.len() {
+                out.push(-1);
+                return out;
+            }
+            let id = u32::from_be_bytes([v[p + 4], v[p + 5], v[p + 6], v[p + 7]]);
+            out.push(if stoken(id, len) == v[p..p + len] { id as i64 } else { -1 });
+            p += len;
+        } else if p == v.len() || v[p] == b',' {
+            out.push(0);
+        } else {
+            out.push(-1);
+            return out;
+        }
+        if p == v.len() {
+            return out;
+        }
+        if v[p] != b',' {
+            out.push(-1);
+            return out;
+        }
+        p += 1;
+    }
 }
 
 type OutEntries = Vec<(Vec<u8>, Vec<u8>)>;
@@ -182,7 +216,7 @@ fn run_with<CC: ChunkCreator>(
 where
     CC::Chunk: 'static,
 {
-    let rec = Recorder { mf: Mf::Concat, calls: RefCell::new(Vec::new()) };
+    let rec = Recorder { mf: if cfg.join { Mf::Join } else { Mf::Concat }, calls: RefCell::new(Vec::new()) };
     let mut b = Sorter::builder(&rec);
     b.allow_realloc(cfg.realloc).max_nb_chunks(cfg.maxc);
     match cfg.hook {
@@ -295,7 +329,7 @@ pub fn run_logged(out: &mut TraceOut, cfg: &SCfg, inserts: &[Entry], ids: &[u32]
                 .iter()
                 .map(|(k, v)| {
                     let kid = dict.strs.binary_search(k).map(|i| i as i64 + 1).unwrap_or(0);
-                    json!({"k": kid, "v": parse_tokens(v)})
+                    json!({"k": kid, "v": if cfg.join { parse_joined(v) } else { parse_tokens(v) }})
                 })
                 .collect();
             out.ev(json!({"ev": "SOut", "res": "ok", "mode": cfg.mode, "entries": named}));
@@ -349,6 +383,7 @@ pub fn random_scfg(r: &mut R, small_scale: bool) -> SCfg {
         chunk,
         creator: *pick(r, &[0u8, 0, 0, 1, 2]),
         mode: r.gen_range(0..3),
+        join: r.gen_bool(0.4),
     }
 }
 
@@ -373,8 +408,8 @@ pub fn scn_sorter(out: &mut TraceOut, r: &mut R, idx: u64, heavy: bool) {
         } else {
             match r.gen_range(0..100) {
                 0..=14 => 0,
-                15..=69 => r.gen_range(6..40),
-                70..=89 => r.gen_range(6..t / 2 + 7),
+                15..=69 => r.gen_range(8..40),
+                70..=89 => r.gen_range(8..t / 2 + 9),
                 90..=96 => r.gen_range(t / 2..2 * t),
                 _ => (3 * t + r.gen_range(0..40)).min(60000),
             }
@@ -409,9 +444,9 @@ pub fn scn_spill(out: &mut TraceOut, r: &mut R, _idx: u64, heavy: bool) {
         let len = match shape {
             0 => r.gen_range(0..=room),
             1 => room, // always the largest allowed entry
-            _ => *pick(r, &[0usize, 6, 7, room / 2, room]),
+            _ => *pick(r, &[0usize, 8, 9, room / 2, room]),
         };
-        let len = if len > 0 && len < 6 { 0 } else { len };
+        let len = if len > 0 && len < 8 { 0 } else { len };
         let i = inserts.len() as u32 + 1;
         total += k.len() + len + 16;
         inserts.push((k, stoken(i, len)));
@@ -420,22 +455,34 @@ pub fn scn_spill(out: &mut TraceOut, r: &mut R, _idx: u64, heavy: bool) {
     run_logged(out, &cfg, &inserts, &ids);
 }
 
-/// Real thresholds (10 MiB minimum budget) through the public API only.
-pub fn scn_sorter_real(out: &mut TraceOut, r: &mut R, _idx: u64, small_entries: bool) {
+/// Real thresholds (10 MiB minimum budget) through the public API only (no hook involved in
+/// the budget): `dump_threshold(requested)`, both reallocation policies, a few entries of up to a
+/// quarter of the budget so that a run needs only a few dozen inserts.
+pub fn scn_sorter_real(out: &mut TraceOut, r: &mut R, idx: u64, _small_entries: bool) {
     let mut cfg = random_scfg(r, false);
     cfg.creator = 0;
     cfg.chunk.codec = 0;
     cfg.chunk.block_size = 65536;
     cfg.threads = 0;
+    cfg.realloc = idx % 2 == 0;
+    cfg.requested = *pick(r, &[0usize, 10_485_760, 10_485_765, 12_000_000, 15_000_000, 17_000_000, 20_000_000]);
     let t = cfg.teff();
-    let uni: Vec<Vec<u8>> = (0..200u32).map(|i| i.to_be_bytes().to_vec()).collect();
-    let target = t * 3 + r.gen_range(0..t);
+    let uni: Vec<Vec<u8>> = (0..50u32).map(|i| i.to_be_bytes().to_vec()).collect();
+    // enough volume to pass twice the buffer the policy allows, plus a bit
+    let target = if cfg.realloc { t * 5 } else { t * 3 } + r.gen_range(0..t);
+    let max_e = t / 4 - 16 - 4;
+    let shape = r.gen_range(0..4);
     let mut inserts = Vec::new();
     let mut ids = Vec::new();
     let mut total = 0usize;
     while total < target {
         let k = pick(r, &uni).clone();
-        let len = if small_entries { *pick(r, &[6usize, 100, 1000, 30000, 60000]) } else { *pick(r, &[0usize, 6, 5000, 60000]) };
+        let len = match shape {
+            0 => max_e,
+            1 => *pick(r, &[1_000_000usize, 1_000_000, 3_000_000.min(max_e)]),
+            2 => r.gen_range(8..=max_e),
+            _ => *pick(r, &[0usize, 8, 100_000, 1_048_576, max_e / 2, max_e]),
+        };
         let i = inserts.len() as u32 + 1;
         total += k.len() + len + 16;
         inserts.push((k, stoken(i, len)));
